@@ -185,6 +185,8 @@ pub struct Harness {
     /// delete_all_documents was called in the current transaction (the committed segments listed in
     /// meta.json are no longer registered with the writer: merging them would be a usage error)
     pub delete_all_pending: bool,
+    /// number of document groups handed to the writer so far (process-wide counter base included)
+    pub groups_expected: u64,
 }
 
 pub fn new_writer(index: &Index, cfg: &Config) -> tantivy::Result<IndexWriter> {
@@ -208,7 +210,7 @@ impl Harness {
         };
         let index = Index::create(dir, schema, settings)?;
         let writer = new_writer(&index, cfg)?;
-        Ok(Harness { index, fields, writer: Some(writer), cfg: cfg.clone(), txn_opstamps: vec![], last_commit_opstamp: None, delete_all_pending: false })
+        Ok(Harness { index, fields, writer: Some(writer), cfg: cfg.clone(), txn_opstamps: vec![], last_commit_opstamp: None, delete_all_pending: false, groups_expected: SEGMENTS_ADDED.load(std::sync::atomic::Ordering::SeqCst) })
     }
 
     fn w(&mut self) -> &mut IndexWriter {
@@ -222,6 +224,21 @@ impl Harness {
     /// Executes one operation on the real writer. `model` is the reference *before* the operation (used
     /// for ids). Returns an error string for API failures and opstamp-contract violations.
     pub fn exec(&mut self, op: Op, model: &RefIndex) -> Result<(), (String, String)> {
+        let r = self.exec_inner(op, model);
+        if self.cfg.eager_merges {
+            // canonical schedule of the eager-merge phases: every document group becomes a segment and every
+            // merge it triggers finishes before the next operation (other interleavings: scheduler scenarios)
+            if matches!(op, Op::AddA | Op::AddB | Op::RunBatch) && r.is_ok() {
+                self.groups_expected += 1;
+                wait_segments_added(self.groups_expected);
+            }
+            wait_merges_quiescent();
+            self.groups_expected = SEGMENTS_ADDED.load(std::sync::atomic::Ordering::SeqCst);
+        }
+        r
+    }
+
+    fn exec_inner(&mut self, op: Op, model: &RefIndex) -> Result<(), (String, String)> {
         let api = |e: tantivy::TantivyError, what: &str| ("api_call_failed".to_string(), format!("{what}: {e:?}"));
         let next_id = model.next_id;
         match op {
@@ -355,6 +372,9 @@ impl Harness {
     /// the committed state as a fresh reader sees it: (id, key) of every live document, checked for
     /// internal consistency (stored fields, fast fields, postings agree)
     pub fn observe(&self) -> Result<Vec<MDoc>, (String, String)> {
+        if self.cfg.eager_merges {
+            wait_merges_quiescent();
+        }
         let reader = self.index.reader().map_err(|e| ("reader_failed".to_string(), format!("{e:?}")))?;
         let searcher = reader.searcher();
         observe_searcher(&searcher, &self.fields)
@@ -404,15 +424,67 @@ pub fn show_docs(v: &[MDoc]) -> String {
     format!("[{}]", v.iter().map(|d| format!("{}:{}", d.id, d.key)).collect::<Vec<_>>().join(" "))
 }
 
-/// Install the flush-after-N hook handler (process wide).
-pub struct FlushHandler(pub Option<u32>);
-impl tantivy::verif_hooks::VerifHandler for FlushHandler {
+/// Process-wide hook handler of the history engine: segment cut after N documents, and counters of
+/// scheduled / finished merges so that observations can wait until background merges are over.
+pub struct HistHandler {
+    pub flush: Option<u32>,
+}
+pub static MERGES_SCHEDULED: std::sync::atomic::AtomicU64 = std::sync::atomic::AtomicU64::new(0);
+pub static MERGES_DONE: std::sync::atomic::AtomicU64 = std::sync::atomic::AtomicU64::new(0);
+pub static SEGMENTS_ADDED: std::sync::atomic::AtomicU64 = std::sync::atomic::AtomicU64::new(0);
+
+impl tantivy::verif_hooks::VerifHandler for HistHandler {
     fn flush_after_docs(&self) -> Option<u32> {
-        self.0
+        self.flush
+    }
+    fn point(&self, name: &'static str) {
+        use std::sync::atomic::Ordering::SeqCst;
+        match name {
+            "merge:scheduled" => {
+                MERGES_SCHEDULED.fetch_add(1, SeqCst);
+            }
+            "merge:done" => {
+                MERGES_DONE.fetch_add(1, SeqCst);
+            }
+            "worker:added" => {
+                SEGMENTS_ADDED.fetch_add(1, SeqCst);
+            }
+            _ => {}
+        }
     }
 }
+
 pub fn set_flush_after(n: Option<u32>) {
-    tantivy::verif_hooks::set_handler(n.map(|x| Arc::new(FlushHandler(Some(x))) as Arc<dyn tantivy::verif_hooks::VerifHandler>));
+    tantivy::verif_hooks::set_handler(Some(Arc::new(HistHandler { flush: n }) as Arc<dyn tantivy::verif_hooks::VerifHandler>));
+}
+
+/// Wait until the indexing workers have turned `expected` document groups into segments (only meaningful
+/// when every group is cut into its own segment by the hook).
+pub fn wait_segments_added(expected: u64) {
+    use std::sync::atomic::Ordering::SeqCst;
+    let t0 = std::time::Instant::now();
+    while SEGMENTS_ADDED.load(SeqCst) < expected && t0.elapsed() < std::time::Duration::from_secs(3) {
+        std::thread::sleep(std::time::Duration::from_micros(100));
+    }
+}
+
+/// Wait until every scheduled background merge has finished (bounded; a merge that panicked never reports).
+pub fn wait_merges_quiescent() {
+    use std::sync::atomic::Ordering::SeqCst;
+    let t0 = std::time::Instant::now();
+    let mut stable = 0;
+    while t0.elapsed() < std::time::Duration::from_secs(5) {
+        if MERGES_SCHEDULED.load(SeqCst) == MERGES_DONE.load(SeqCst) {
+            stable += 1;
+            if stable >= 3 {
+                return;
+            }
+            std::thread::sleep(std::time::Duration::from_micros(300));
+        } else {
+            stable = 0;
+            std::thread::sleep(std::time::Duration::from_micros(200));
+        }
+    }
 }
 
 #[allow(dead_code)]
